@@ -1,5 +1,5 @@
 (* C12 — switch-label source routes.  Property theorems only; proofs in SwitchLabelProofs.v. *)
-From Verif Require Import Prelude SwitchLabel SwitchLabelProofs Gen Translated TranslatedDec TranslatedImp.
+From Verif Require Import Prelude SwitchLabel SwitchLabelProofs Gen Translated TranslatedDec TranslatedImp TranslatedImp2.
 
 (* A valid path: forward labels F = f_0..f_{n-2} and return labels R = r_1..r_{n-1}, all in
    1..65535 (f_{n-1} = 0 = r_0 are added by mk_hops), n >= 2 hops, any n that fits.
@@ -94,3 +94,12 @@ Theorem C12_source_transform_is_model : forall block,
   Gen.go_TransformToReturnBlock block = IOk [] (transform block).
 Proof. intros block. apply go_transform_is_model. reflexivity. Qed.
 Print Assumptions C12_source_transform_is_model.
+
+(* CalculateBlockSize as translated from the source (three generated loops, one nested; the size
+   simulation as an int array with index writes): for EVERY hop list it returns the model's
+   calc_size, or an error where the model has one — so "the computed block size is sufficient and
+   minimal" above is a statement about what the Go source computes. *)
+Theorem C12_source_calc_size_is_model : forall hops,
+  ires_size (Gen.go_SwitchPath_CalculateBlockSize hops) = forget_code (calc_size hops).
+Proof. intros hops. apply go_calc_size_is_model. reflexivity. Qed.
+Print Assumptions C12_source_calc_size_is_model.
